@@ -19,6 +19,7 @@ import OH.Props.ArithC01
 #print axioms OH.Props.C01.DatedAgree_of_safe
 #print axioms OH.Props.C01.exprDefined_of_safe
 #print axioms OH.Props.C01.exprDatedSafe_of_plain
+#print axioms OH.Props.C01.exprDatedSafe_iff_plain
 #print axioms OH.Props.C01.C01_schedule_refines_spec_window
 #print axioms OH.Props.C01.C01_schedule_refines_spec_window'
 #print axioms OH.Props.C01.C01_schedule_refines_spec_inyear
